@@ -299,7 +299,9 @@ pub fn eval_comptime_blocks<'a>(
                 let layout =
                     Layout::from_size_align(return_ty.size() as usize, return_ty.align() as usize)
                         .expect("Invalid layout");
-                let raw = unsafe { std::alloc::alloc(layout) };
+                // zeroed so that padding bytes, which the comptime code never writes, don't end up
+                // as arbitrary bytes in the object file
+                let raw = unsafe { std::alloc::alloc_zeroed(layout) };
 
                 let comptime =
                     unsafe { mem::transmute::<*const u8, fn(*mut u8) -> *mut u8>(code_ptr) };
